@@ -183,10 +183,10 @@ func programs(thorough bool) []vsched.Program {
 
 func TestVerif_C58(t *testing.T) {
 	vx.Run(t, "C58", func(c *vx.Ctx) {
-		bound := vx.Pick(c, 2, -1)
-		c.Rule("every schedule with at most B preemptions (quick B=2; thorough unbounded) of acceptor/closer programs over the instrumented netutil.LimitListener (n in {1,2}; 1-3 acceptors each Accept -> Close -> Close; optional Listener.Close incl. repeated, a late Accept after Close returned, and an inner listener that hands out a spurious connection after close); scheduling point before every channel operation/select/Once and inside the fake listener and connection; evaluations = complete executions")
+		bounds := vx.Pick(c, []int{2}, []int{3, -1})
+		c.Rule("every schedule with at most B preemptions (quick B=2; thorough: B=3, then unbounded, the largest completed bound per program is recorded) of acceptor/closer programs over the instrumented netutil.LimitListener (n in {1,2}; 1-3 acceptors each Accept -> Close -> Close; optional Listener.Close incl. repeated, a late Accept after Close returned, and an inner listener that hands out a spurious connection after close); scheduling point before every channel operation/select/Once and inside the fake listener and connection; evaluations = complete executions")
 		c.Assume("in the variant whose inner listener hands out a spurious connection after its own Close (the situation listen.go comments on), 'Accept after Close returns an error' is not asserted — the wrapper cannot know better than its inner listener when select picks the free slot — only the limit, slot accounting and absence of blocking are")
 		c.Assume("a connection counts as closed from the moment its Close is called; synchronisation-operation granularity (L3)")
-		vsched.RunAll(c, "sched", programs(!c.Quick()), bound)
+		vsched.RunBounds(c, "sched", programs(!c.Quick()), bounds)
 	})
 }
